@@ -102,9 +102,9 @@ def load_findings():
 def match_finding(findings, prop, signature):
     for f in findings:
         if f.get("property") != prop or f.get("status") != "open": continue
-        pat = f.get("signature", "")
-        if signature == pat or fnmatch.fnmatchcase(signature, pat):
-            return f
+        for pat in ([f.get("signature", "")] if f.get("signature") else []) + list(f.get("signatures", [])):
+            if signature == pat or fnmatch.fnmatchcase(signature, pat):
+                return f
     return None
 
 def run_leg(prop, leg, tier, seed, workdir):
@@ -172,6 +172,12 @@ def check(prop_id, tier="quick", seed=0):
             if not res.get("exhaustive", True): exhaustive = False
             for s in res.get("samples", [])[:3]: samples.append({"leg": leg.name, "case": s})
             for v in res.get("violations", []):
+                # a violation whose signature is already final (monitor verdicts) and listed as an open known finding was confirmed when it was recorded
+                if v.get("kind") == "monitor":
+                    pre = "%s|%s|%s" % (prop_id, leg.name, v.get("sig"))
+                    kf = match_finding(findings, prop_id, pre)
+                    if kf:
+                        known.append((kf, pre, "")); continue
                 ok, kind, sig, detail, err = replay_violation(exe, leg, v, workdir, tier)
                 if not ok:
                     ok, kind, sig, detail, err = replay_violation(exe, leg, v, workdir, tier)
@@ -189,6 +195,20 @@ def check(prop_id, tier="quick", seed=0):
                 f = match_finding(findings, prop_id, signature)
                 if f: known.append((f, signature, rp))
                 else: confirmed.append((signature, rp, detail))
+        # cross-leg comparisons (e.g. output digests must not depend on the auto-variable initialisation flavour)
+        for (la, lb, field) in P.get("cross_check", []):
+            ra = [l for l in ev_legs if l.get("leg") == la]; rb = [l for l in ev_legs if l.get("leg") == lb]
+            if ra and rb and "extra" in ra[0] and "extra" in rb[0]:
+                va, vb = ra[0]["extra"].get(field), rb[0]["extra"].get(field)
+                nd = ra[0]["extra"].get(field + "_nondeterministic") or rb[0]["extra"].get(field + "_nondeterministic")
+                if va != vb or nd:
+                    signature = "%s|%s+%s|%s" % (prop_id, la, lb, "digest-nondeterministic" if nd else "digest-depends-on-uninitialised-memory")
+                    os.makedirs(replay_dir, exist_ok=True)
+                    rp = os.path.join(replay_dir, hashlib.sha1(signature.encode()).hexdigest()[:16] + ".json")
+                    json.dump({"property": prop_id, "signature": signature, "field": field, la: va, lb: vb, "nondeterministic": nd}, open(rp, "w"), indent=1)
+                    f = match_finding(findings, prop_id, signature)
+                    if f: known.append((f, signature, rp))
+                    else: confirmed.append((signature, rp, "%s of leg %s = %s, of leg %s = %s %s" % (field, la, va, lb, vb, nd or "")))
     finally:
         shutil.rmtree(workdir, ignore_errors=True)
     wall = time.time() - t0
